@@ -4,11 +4,16 @@ Hypothesis draws modules (vf/gen.py), the asn1c from /repo compiles them, the ge
 library + c/mt_driver.c are built with -fsanitize=thread.  Per module Hypothesis then draws *script sets*:
 N in {2,4,8,16} threads, each with a deterministic script of codec calls over its own structures (values are
 injected as reference DER from vf/ref_ber.py; the other four syntaxes are reached by encode -> decode chains
-inside the script), plus a seed for the schedule perturbation.  The driver runs every script alone, then all
-of them concurrently R times.
+inside the script), plus a seed for the schedule perturbation.  The driver runs all scripts concurrently R times
+(first, in a process that is renewed every FRESH sets, so that one-time initialisation is reached by several threads
+at once), then every script alone.
 
 Oracle 1 (differential): every recorded result of a concurrent run equals the result of the solo run.
-Oracle 2: ThreadSanitizer reports nothing (halt_on_error; nothing is suppressed).
+Oracle 2: ThreadSanitizer reports nothing (halt_on_error; nothing of /repo or of the generated code is suppressed;
+c/mt_tsan_libc.supp names three glibc-internal time-zone functions whose private lock TSan cannot see).
+
+Code-generation options vary per module (default, -fwide-types, -findirect-choice); a fixed catalogue module
+(catalogue()) joins the drawn ones under each option set.
 """
 import os
 import re
@@ -18,7 +23,7 @@ from hypothesis import strategies as st
 
 from . import gen, drv, build, ref_ber, pipeline, runner
 from .common import Acc, h, KNOWN
-from .model import Module, T, Member, Cons, val_to_json
+from .model import Module, T, Member, Cons
 from .pipeline import Fail
 
 PID = "C19"
@@ -28,7 +33,7 @@ RULE = ("modules drawn by Hypothesis over the supported type algebra (time types
         "DER/OER/UPER/XER/CXER, asn_check_constraints incl. failing values, asn_fprint and xer_fprint to a memory "
         "stream, compare_struct, copy by DER round trip, decode of truncated/bit-flipped/extended input, "
         "ASN_STRUCT_FREE, asn_random_fill) over values injected as reference DER, with a seeded sched_yield/spin "
-        "perturbation between calls; the driver runs every script alone, then all concurrently R times; every call's "
+        "perturbation between calls; the driver runs all scripts concurrently R times, then every script alone; every call's "
         "(rc, consumed/encoded, errno of a failed asn_encode, hash of the bytes produced) must equal the solo result "
         "and ThreadSanitizer must stay silent; non-trivial = the per-thread call logs show at least two threads "
         "executing the same library function family on the same type descriptor within the run; distinct by script set")
@@ -42,6 +47,11 @@ ASSUMPTIONS = [
     "asn_random_fill draws from libc's global random(): it is executed concurrently (TSan oracle) but its results are "
     "not compared",
     "the driver checks has_codec before calling a codec, so the NULL-codec entries of SET/ANY for OER/PER are not called",
+    "glibc's time-zone state is guarded by a libc-internal lock that TSan cannot see: reports whose racing access lies "
+    "inside tzset_internal/__tzfile_read/__tzset_parse_tz (libc frames) are suppressed, and TZ is set to a fixed POSIX "
+    "string so that local time does not depend on the host; nothing in /repo code is suppressed",
+    "a result mismatch (oracle 1) depends on winning a race: a candidate is confirmed by re-running the same input with "
+    "400 repetitions in up to 5 fresh processes AND by a clean control run of the same work one thread at a time",
     "memory errors without a data race are not this check's business (TSan build has no ASan)",
 ]
 SUPP = os.path.join(build.CDIR, "mt_tsan_libc.supp")     # glibc-internal tz lock only; nothing of /repo is suppressed
@@ -49,7 +59,8 @@ TSAN_ENV = {"TSAN_OPTIONS": "halt_on_error=1:exitcode=66:report_thread_leaks=1:s
             # local time must not depend on the host: a POSIX TZ string needs no zoneinfo file and has a non-zero offset
             "TZ": "EST5EDT,M3.2.0,M11.1.0"}
 BUILD_KW = dict(driver_src="mt_driver.c", wrap=False, link_flags=("-pthread",))
-VARIANT = os.environ.get("VERIF_C19_VARIANT", "tsan")      # "plain" only for overhead measurements by hand
+# "plain" (no TSan: oracle 1 alone) only for overhead measurements and sensitivity experiments by hand
+VARIANT = os.environ.get("VERIF_C19_VARIANT", "tsan")
 THREADS = [2, 4, 8, 16]
 SYN = ["ber", "oer", "uper", "xer", "cxer"]
 # code-generation options change which skeleton files carry the load (INTEGER.c/REAL.c instead of Native*.c, pointer CHOICE)
@@ -115,7 +126,6 @@ def catalogue():
     """A fixed module that every run includes under every flag set, so that the code paths the property's anchors
     name are always exercised by several threads (wide INTEGERs, REAL, time types, OBJECT IDENTIFIER, permitted
     alphabets with a PER character map, long strings, SET OF, CHOICE, SET, a recursive type)."""
-    I, R = T("INTEGER"), T("REAL")
     ts = [
         ("KInt", T("INTEGER")),
         ("KIntC", T("INTEGER", cons=Cons("value", [(-5, 300)]))),
@@ -288,7 +298,9 @@ def classify_crash(e):
         # stable key: kind + function, without build paths and line/column numbers
         fn = re.search(r" in (\S+)$", where)
         kind = m.group(1).strip()
-        key = "tsan:%s:%s" % (kind.replace(" ", "-"), fn.group(1) if fn else re.sub(r"/\S*/", "", where))
+        # first frame inside the library or the generated code names the class better than an interceptor does
+        lib = re.search(r"#\d+ (\S+) \S*/(?:skeletons|gen)/\S+", err[m.start():])
+        key = "tsan:%s:%s" % (kind.replace(" ", "-"), lib.group(1) if lib else fn.group(1) if fn else re.sub(r"/\S*/", "", where))
         start = err.find("WARNING: ThreadSanitizer")
         return key, "ThreadSanitizer report (oracle 2):\n" + err[start:start + 3500]
     phases = re.findall(r"#phase (\w+) (\d+) (\d+)", err)
@@ -517,8 +529,8 @@ def replay_case(case):
 def main(argv):
     a = runner.parse_args(argv)
     thorough = a.tier == "thorough"
-    nm = a.modules or (240 if thorough else 32)
-    nv = a.values or (120 if thorough else 60)
+    nm = a.modules or (240 if thorough else 40)
+    nv = a.values or (120 if thorough else 100)
     reps = 6 if thorough else 4
     return runner.run_module_check(
         PID, "exploration", RULE, worker, replay_case, argv,
